@@ -10,6 +10,7 @@ if r.stdout.strip():
 r = sh("git -C /repo apply %s" % patch)
 if r.returncode != 0:
     print("patch does not apply:", r.stderr); sys.exit(2)
+sh('rm -rf /verif/work/evidence.bak && cp -r /verif/evidence /verif/work/evidence.bak')
 try:
     b = sh("cd /repo && GOFLAGS=-mod=mod GOPROXY=off GOSUMDB=off GOTOOLCHAIN=local go build ./... && GOFLAGS=-mod=mod GOPROXY=off GOSUMDB=off go test -vet=off -count=1 ./... 2>&1 | tail -3")
     print("build+tests with the change:", (b.stdout + b.stderr).strip().replace("\n", " | "))
@@ -26,5 +27,6 @@ try:
                     print("      ->", o.get("kind"), o.get("key"), (o.get("what") or str(o.get("broken_theorems_or_tie")))[:260])
                 except Exception as e: print("      (replay unreadable)", e)
 finally:
+    sh('rm -rf /verif/evidence && mv /verif/work/evidence.bak /verif/evidence')
     sh("git -C /repo checkout -- . && git -C /repo clean -fdq -e verif_export.go")
     print("restored:", sh("git -C /repo status --porcelain").stdout.strip() or "clean")
